@@ -55,7 +55,7 @@ def work(ctx, tier):
                 ctx.inc("sweep_scenarios")
     n = (20000 if tier == "quick" else 300000) // ctx.nshards
     for k in range(n):
-        sc = gen.rand_scenario(rng, p_special=0.02, p_budget=0.3, p_handler=0.6, p_abort=0.15, p_before_sleep=0.6, ncalls=(1, 3), placements=True, slow_hooks=(k % 2 == 0), exotic_callables=True, call_kw_drops=True, p_via_attrs=0.25, p_bogus_handler=0.15, p_breaker=0.2, p_via_config=0.25)
+        sc = gen.rand_scenario(rng, p_special=0.02, p_attempt_timeout=0.12, p_budget=0.3, p_handler=0.6, p_abort=0.15, p_before_sleep=0.6, ncalls=(1, 3), placements=True, slow_hooks=(k % 2 == 0), exotic_callables=True, call_kw_drops=True, p_via_attrs=0.25, p_bogus_handler=0.15, p_breaker=0.2, p_via_config=0.25)
         if k % 5 == 1 and sc["place"]["before_sleep"] != "none":
             # a before_sleep hook that fails on one particular retry (or always): the backoff it announces still has to happen
             sc["fault"] = {"kind": "hook", "hook": "before_sleep", "at": rng.choice([0, 1, 2, "always"]), "exc": rng.choice(gen.CB_EXCS + ["AbortRetryError", "EmptyHookError"])}
